@@ -7,7 +7,9 @@ PROJECTION = 'text (tolerant end-to-end, and tree-level on the real tree)'
 RULE = ('every macro and environment name of the default latexwalker and latex2text databases x written-argument shapes '
         '(none, empty, one/two/five short arguments, optional, star, as the single-token argument of \\textbf / \\hat / '
         '\\frac / \\sqrt, inside math, unclosed) ; all strings up to 2 symbols over the significant alphabet ; token soups '
-        'over names and structure tokens ; structured documents ; each crossed with values of math_mode, '
+        'over names and structure tokens ; structured documents ; character-wise formatters (math alphabets, small caps, '
+        'upper-casing titles) over characters whose str predicates disagree with ASCII intuition (the upper-casing ones on '
+        'the real code only: the model\'s upper() table covers the default tables\' characters) ; each crossed with values of math_mode, '
         'strict_latex_spaces, keep_comments, keep_braced_groups (model and real code) and fill_text (real code only). '
         'Non-trivial: the input contains a macro, environment, math or specials.')
 EXHAUSTIVE = {'quick': False, 'thorough': False}
@@ -59,7 +61,9 @@ def _opts(rnd, fill_ok=True):
     return o
 
 
-REAL_ONLY = ('nesting-beyond-interpreter-stack', 'definitions')
+# 'formatter-corner-character:upper': the model's str.upper() table (regenerated, harness/gen_l2tctx.py) covers the characters the
+# default tables and accent compositions can produce, not all of Unicode: those cases go to the real code and the oracle only
+REAL_ONLY = ('nesting-beyond-interpreter-stack', 'definitions', 'formatter-corner-character:upper')
 
 
 def _case(s, o, origin):
@@ -115,6 +119,17 @@ def gen_cases(seed, tier):
         for ch in odd:
             cases.append(_case('\\' + a + '{' + ch + '}', _opts(rnd), 'accent-odd-character'))
             cases.append(_case('x\\' + a + (' ' if a[-1].isalpha() else '') + ch + 'y', _opts(rnd), 'accent-odd-character'))
+    # formatters that work character by character (math alphabets, small caps, upper-casing titles) over characters
+    # whose str predicates disagree with what one expects of ASCII: digits int() refuses, letters whose upper() /
+    # lower() is two characters or none, numerals that are not digits, marks
+    cornerch = ['\u00b2', '\u2460', '\u0663', '\u0e53', '\U0001d7d8', '\u00bd', '\u2167', '\u00df', '\u01c5', '\u017f',
+                '\u0130', '\ufb01', '\u00b5', '\u00aa', '\u0301', '\u1e9e', '\u0149', '\u3007', '\uff11', '\u2074']
+    r3 = random.Random(seed + 702)
+    for fm in ['mathbf', 'mathbb', 'mathcal', 'mathfrak', 'mathsf', 'mathtt', 'mathit', 'mathrm', 'mathscr', 'textsc',
+               'textbf', 'emph', 'section', 'chapter', 'part', 'textit', 'texttt', 'boldsymbol', 'bm']:
+        for ch in cornerch:
+            for sh in ('\\%s{%s}', '$\\%s{a%s1}$', '\\(\\%s %s\\)', 'x \\%s{%sZ} y'):
+                cases.append(_case(sh % (fm, ch), _opts(r3), 'formatter-corner-character' + (':upper' if fm in ('section', 'chapter', 'part') else '')))
     # deep nesting (well inside the interpreter's stack): linear work, whatever the options
     r2 = random.Random(seed + 701)
     for op, cl, per in DEEP:
